@@ -124,7 +124,9 @@ static std::vector<std::vector<double>> rows(Args& a)
 	return r;
 }
 
-static void report_nm(Out& o, Minimization& M, const std::vector<double>& pmin, const std::vector<Tok>& pr, const std::vector<std::vector<double>>& trace)
+// digest = true: the trace is reported as its length and a 64-bit FNV-style hash of the doubles (`H<hex>`), for the long
+// object-reuse sequences whose answer must fit the 1 MiB result buffer of a forked child
+static void report_nm(Out& o, Minimization& M, const std::vector<double>& pmin, const std::vector<Tok>& pr, const std::vector<std::vector<double>>& trace, bool digest = false)
 {
 	o << pmin.size() << pmin << M.fmin << M.nfunc << M.y.size() << M.y;
 	for(auto& r : M.current_simplex)
@@ -133,25 +135,43 @@ static void report_nm(Out& o, Minimization& M, const std::vector<double>& pmin, 
 	for(auto& r : M.current_simplex)
 		o << eval(pr, r);
 	o << trace.size();
+	if(digest)
+	{
+		unsigned long long h = 1469598103934665603ULL;
+		for(auto& t : trace)
+			for(double v : t)
+			{
+				unsigned long long u;
+				memcpy(&u, &v, 8);
+				h = (h ^ u) * 1099511628211ULL;
+			}
+		char buf[32];
+		snprintf(buf, sizeof buf, "H%016llx", h);
+		o << buf;
+		return;
+	}
 	for(auto& t : trace)
 		o << t;
 }
 
 std::string handle(const std::string& op, Args& a)
 {
-	if(op == "c11.min" || op == "c11.max")
+	if(op == "c11.min" || op == "c11.max" || op == "c11.mindef" || op == "c11.maxdef")
 	{
-		double xl = a.dbl(), xr = a.dbl(), tol = a.dbl();
+		// mindef / maxdef: the overloads with the DEFAULT tolerance argument; the answer is followed by the same call
+		// with the tolerance 3e-8 written out (x f(x) ntrace trace)
+		bool deftol = op == "c11.mindef" || op == "c11.maxdef";
+		double xl = a.dbl(), xr = a.dbl(), tol = deftol ? 3e-8 : a.dbl();
 		auto pr = prog(a);
 		a.end();
-		bool mx = op == "c11.max";
+		bool mx = op == "c11.max" || op == "c11.maxdef";
 		return run_forked([&](Out& o) {
 			std::vector<double> trace;
 			std::function<double(double)> f = [&](double x) {
 				trace.push_back(x);
 				return eval(pr, {x});
 			};
-			double r = mx ? Find_Maximum(f, xl, xr, tol) : Find_Minimum(f, xl, xr, tol);
+			double r = deftol ? (mx ? Find_Maximum(f, xl, xr) : Find_Minimum(f, xl, xr)) : (mx ? Find_Maximum(f, xl, xr, tol) : Find_Minimum(f, xl, xr, tol));
 			o << r << eval(pr, {r});
 			o.list(trace);
 			if(mx)
@@ -161,9 +181,20 @@ std::string handle(const std::string& op, Args& a)
 					trace2.push_back(x);
 					return -1.0 * eval(pr, {x});
 				};
-				double r2 = Find_Minimum(g, xl, xr, tol);
+				double r2 = deftol ? Find_Minimum(g, xl, xr) : Find_Minimum(g, xl, xr, tol);
 				o << r2 << -1.0 * eval(pr, {r2});
 				o.list(trace2);
+			}
+			if(deftol)
+			{
+				std::vector<double> trace3;
+				std::function<double(double)> h = [&](double x) {
+					trace3.push_back(x);
+					return eval(pr, {x});
+				};
+				double r3 = mx ? Find_Maximum(h, xl, xr, 3e-8) : Find_Minimum(h, xl, xr, 3e-8);
+				o << r3 << eval(pr, {r3});
+				o.list(trace3);
 			}
 		});
 	}
@@ -297,7 +328,7 @@ std::string handle(const std::string& op, Args& a)
 		}
 		a.end();
 		// `aliased`: pass the object's own members; otherwise m.pp / m.start hold (copies of) the arguments
-		auto run_member = [](Minimization& M, Member m, Out& o, bool aliased) {	  // m by value: the library takes non-const references
+		auto run_member = [](Minimization& M, Member m, Out& o, bool aliased, bool digest) {	  // m by value: the library takes non-const references
 			std::vector<std::vector<double>> trace;
 			std::function<double(std::vector<double>)> f = [&](std::vector<double> x) {
 				trace.push_back(x);
@@ -325,7 +356,7 @@ std::string handle(const std::string& op, Args& a)
 				pmin = M.minimize(m.start, m.deltas, f);
 			else
 				pmin = M.minimize(m.start, m.delta, f);
-			report_nm(o, M, pmin, m.pr, trace);
+			report_nm(o, M, pmin, m.pr, trace, digest);
 		};
 		std::string seq = run_forked([&](Out& o) {
 			Minimization M(ftol);
@@ -333,7 +364,7 @@ std::string handle(const std::string& op, Args& a)
 			{
 				if(i)
 					o << "|";
-				run_member(M, ms[i], o, ms[i].restart());
+				run_member(M, ms[i], o, ms[i].restart(), !ms[i].restart());
 			}
 		});
 		// the copies of the aliased arguments, read back from the shared-object answer
@@ -380,7 +411,7 @@ std::string handle(const std::string& op, Args& a)
 			}
 			res += " " + run_forked([&](Out& o) {
 				Minimization M(ftol);
-				run_member(M, m, o, false);
+				run_member(M, m, o, false, false);
 			});
 		}
 		return res;
